@@ -506,10 +506,11 @@ func (c *Ctx) logPriorityTable() {
 	got := map[string]string{}
 	ast.Inspect(decl.Body, func(n ast.Node) bool {
 		cc, ok := n.(*ast.CaseClause)
-		if !ok || len(cc.List) != 1 || len(cc.Body) != 1 {
+		if !ok || len(cc.List) != 1 || len(cc.Body) == 0 {
 			return true
 		}
-		ret, ok := cc.Body[0].(*ast.ReturnStmt)
+		// the arm's value is what it returns (statements before the return, e.g. a log line, do not matter)
+		ret, ok := cc.Body[len(cc.Body)-1].(*ast.ReturnStmt)
 		if !ok || len(ret.Results) != 1 {
 			return true
 		}
